@@ -50,6 +50,13 @@ def wContiguous : Reply := ⟨[
   ⟨"", [⟨"", "", "1}", some 0⟩, ⟨"c1", "t", "", some 1⟩], []⟩,
   ⟨"", [⟨"", "", "{\"b\":", some 1⟩, ⟨"", "", "2}", some 1⟩], []⟩]⟩
 
+/-- `wCfg` with an unknown-tools handler that names the tool it was asked for -/
+def wCfgU (rd : List String) (maxStep : Int) : Config :=
+  { wCfg rd maxStep with unknown := some (fun n a => .ok ("no tool " ++ n ++ "(" ++ a ++ ")")) }
+
+/-- the model misspells `t` in its first call and calls the real `t` in the same message -/
+def wMisspelt : Reply := ⟨[⟨"", [⟨"c1", "tt", "a", none⟩, ⟨"c2", "t", "b", none⟩], []⟩]⟩
+
 /-- two runs for the shared-slice witnesses: each calls `t` once (with its own argument and call
     id) and then answers -/
 def wRunA : RunSpec :=
